@@ -120,3 +120,86 @@ Example C19_nonvacuous :
                        [["D"; "A"; "X"]; ["A"]] []) EMPTY_PARTS) = "".
 Proof. vm_compute. repeat split; reflexivity. Qed.
 Print Assumptions C19_nonvacuous.
+
+(* ---------- the regenerated source of the scanner's helpers (Gen/FactsDocSrc.v, dumped by harness/translate/DocSrc.py) ----------
+   Each helper of simple_parsing/docstring.py is dumped statement by statement into MiniPy and executed by the MiniPy interpreter
+   (Model/MiniPy.v; a call of another helper runs the callee's dumped body).  The theorems say that, for EVERY line / list of lines,
+   the result is the corresponding function of the hand model Model/DocScan.v instantiated with the regenerated facts: the fields
+   v_isdef, v_empty, v_iscomment, v_defname, v_comment, v_inline of `view_gen`.  `_split_at_comment` is the character loop with the
+   quote state: the source's while loop equals split_run split_step_gen (hypothesis: the line is no longer than the loop bound
+   doc_while_fuel = 4096 of the dump).  Strings are byte strings; strip / isidentifier are their ASCII readings.
+   NOT bridged: `_get_docstring_starting_at_line` and `_get_comment_ending_at_line` beyond one round of its walk (both are dumped in
+   Gen/FactsDocSrc.v; gcel_shape pins the text of the second), and the per-class loop of `_get_attribute_docstring`. *)
+From SPV Require Import Model.MiniPy Gen.FactsDocSrc Proofs.MiniPyDoc.
+
+Theorem C19_source_contains_field_definition_is_model : forall line,
+  MiniPy.run [("line", VS line)] contains_field_definition_src = Ok (VB (contains_def_gen line)).
+Proof. exact contains_field_definition_is_model. Qed.
+Print Assumptions C19_source_contains_field_definition_is_model.
+
+Theorem C19_source_is_empty_is_model : forall line,
+  MiniPy.run [("line_str", VS line)] is_empty_src = Ok (VB (v_empty (view_gen line))).
+Proof. exact is_empty_is_model. Qed.
+Print Assumptions C19_source_is_empty_is_model.
+
+Theorem C19_source_is_comment_is_model : forall line,
+  MiniPy.run [("line_str", VS line)] is_comment_src = Ok (VB (v_iscomment (view_gen line))).
+Proof. exact is_comment_is_model. Qed.
+Print Assumptions C19_source_is_comment_is_model.
+
+Theorem C19_source_split_at_comment_is_model : forall line,
+  String.length line <= doc_while_fuel ->
+  MiniPy.run [("line", VS line)] split_at_comment_src = Ok (enc_split line (split_run split_step_gen line None false)).
+Proof. exact split_at_comment_is_model. Qed.
+Print Assumptions C19_source_split_at_comment_is_model.
+
+Theorem C19_source_line_contains_definition_for_is_model : forall line f,
+  MiniPy.run [("line", VS line); ("field_name", VS f)] line_contains_definition_for_src
+  = Ok (VB (match v_defname (view_gen line) with Some n => String.eqb n f | None => false end)).
+Proof. exact line_contains_definition_for_is_model. Qed.
+Print Assumptions C19_source_line_contains_definition_for_is_model.
+
+Theorem C19_source_get_comment_at_line_is_model : forall lines n,
+  MiniPy.run [("code_lines", VL (map VS lines)); ("line", VN n)] get_comment_at_line_src
+  = match nth_error lines n with
+    | None => Err (Raise "IndexError")
+    | Some l => if v_isdef (view_gen l) then Err (Raise "AssertionError") else Ok (VS (v_comment (view_gen l)))
+    end.
+Proof. exact get_comment_at_line_is_model. Qed.
+Print Assumptions C19_source_get_comment_at_line_is_model.
+
+Theorem C19_source_get_inline_comment_at_line_is_model : forall lines n,
+  Forall (fun l => String.length l <= doc_while_fuel) lines ->
+  MiniPy.run [("code_lines", VL (map VS lines)); ("line", VN n)] get_inline_comment_at_line_src
+  = match nth_error lines n with
+    | None => Err (Raise "AssertionError")
+    | Some l => if v_isdef (view_gen l) then Ok (VS (v_inline (view_gen l))) else Err (Raise "AssertionError")
+    end.
+Proof. exact get_inline_comment_at_line_is_model. Qed.
+Print Assumptions C19_source_get_inline_comment_at_line_is_model.
+
+(* one round of the upward walk of `_get_comment_ending_at_line` (the body of its while loop at line k+1): it breaks exactly when
+   the model's walk stops there (walk_stop with the regenerated facts), otherwise it moves one line up.  The induction over the
+   rounds and the collecting loop below it are not bridged. *)
+Theorem C19_source_comment_walk_round_is_model : forall r lines k l,
+  MiniPy.lookup "code_lines" r = Some (VL (map VS lines)) -> MiniPy.lookup "start_line" r = Some (VN (S k)) -> nth_error lines (S k) = Some l ->
+  exists r', MiniPy.exec_block r gcel_walk_body
+             = Ok (r', if walk_stop FIX_WALK walk_stops_at_quote_lines_gen (view_gen l) then Some BRK else None)
+             /\ MiniPy.lookup "code_lines" r' = Some (VL (map VS lines))
+             /\ (walk_stop FIX_WALK walk_stops_at_quote_lines_gen (view_gen l) = false -> MiniPy.lookup "start_line" r' = Some (VN k)).
+Proof. exact comment_walk_round_is_model. Qed.
+Print Assumptions C19_source_comment_walk_round_is_model.
+
+(* non-vacuity: the dumped helpers run; a '#' inside a string literal is not a comment (fix df5cd15) *)
+Example C19_source_nonvacuous :
+  MiniPy.run [("line", VS "    x: int = 3  # c")] contains_field_definition_src = Ok (VB true)
+  /\ MiniPy.run [("line", VS "class A(B):")] contains_field_definition_src = Ok (VB false)
+  /\ MiniPy.run [("line", VS "color: str = ""#ff0000""  # the colour")] split_at_comment_src
+     = Ok (VT [VS "color: str = ""#ff0000""  "; VS " the colour"])
+  /\ MiniPy.run [("line", VS "color: str = ""#ff0000""")] split_at_comment_src = Ok (VT [VS "color: str = ""#ff0000"""; VNone])
+  /\ MiniPy.run [("code_lines", VL [VS "class A:"; VS "    color: str = '#f'  # shade "]); ("line", VN 1)] get_inline_comment_at_line_src
+     = Ok (VS "shade")
+  /\ MiniPy.run [("code_lines", VL [VS "class A:"; VS "    # above "]); ("line", VN 1)] get_comment_at_line_src = Ok (VS "above")
+  /\ MiniPy.run [("line", VS "  x : int"); ("field_name", VS "x")] line_contains_definition_for_src = Ok (VB true).
+Proof. vm_compute. repeat split; reflexivity. Qed.
+Print Assumptions C19_source_nonvacuous.
